@@ -84,6 +84,18 @@ pub mod prepared {
         ps
     }
 
+    /// `name.and_then(PartitionerName::from_str).unwrap_or_default()`, as `Session::prepare` and
+    /// `ClusterState::compute_token` do it. Returns (`from_str` result: `None` = unknown name,
+    /// `Some(is CDC)`; whether the finally selected partitioner is CDC).
+    pub fn partitioner_from_name(name: Option<&str>) -> (Option<bool>, bool) {
+        let parsed = name.and_then(PartitionerName::from_str);
+        let is_cdc = |p: &PartitionerName| matches!(p, PartitionerName::CDC);
+        (
+            parsed.as_ref().map(is_cdc),
+            is_cdc(&parsed.unwrap_or_default()),
+        )
+    }
+
     /// `routing::partitioner::calculate_token_for_partition_key`;
     /// `Err(len)` = `TokenCalculationError::ValueTooLong(len)`.
     pub fn calculate_token_for_partition_key(
